@@ -9,7 +9,8 @@ from .. import refash as R
 ID = "C05"
 LEVEL = "fault_enumeration"
 ENGINE = "E2 ashpeer"
-TECHNIQUE = "deterministic simulation in virtual time: complete enumeration of per-attempt peer reactions for one send, seeded reaction timing (incl. exact deadline ties) and queued sends"
+TECHNIQUE = ("deterministic simulation in virtual time: complete enumeration of per-attempt peer reactions for one send, seeded reaction timing (incl. exact deadline ties) and queued sends"
+             ' The live-link engine E1 (host frames in flight, windowed reference NCP, line faults, reads spanning frame boundaries) is a further seeded scenario of this check, with the reference receiver fed the same bytes.')
 LEVEL_TEXT = ("every script of per-attempt peer reactions {covering ACK, stale ACK, NAK, silence, ERROR, RSTACK}^k, k<=5 (pruned when the send ends) "
               "is run for one send, alone and with queued sends, each at all four uniform reaction timings (immediately, mid-window, exactly at the "
               "ACK deadline, just after) and at seeded mixed timings; random longer scenarios beyond")
